@@ -1,0 +1,32 @@
+//go:build verif
+
+package orderedmap
+
+import "fmt"
+
+// VerifInvariant checks that `order` and `records` describe the same key set,
+// without duplicates. Only compiled with `-tags verif`.
+func (orderedMap *Map[K, V]) VerifInvariant() error {
+	if orderedMap == nil {
+		return nil
+	}
+	seen := make(map[K]struct{}, len(orderedMap.order))
+	for _, key := range orderedMap.order {
+		if _, dup := seen[key]; dup {
+			return fmt.Errorf("key %v appears twice in order", key)
+		}
+		seen[key] = struct{}{}
+		if _, found := orderedMap.records[key]; !found {
+			return fmt.Errorf("key %v in order but not in records", key)
+		}
+	}
+	if len(seen) != len(orderedMap.records) {
+		return fmt.Errorf("order has %d keys, records has %d", len(seen), len(orderedMap.records))
+	}
+	return nil
+}
+
+// VerifOrder returns a copy of the internal key order. Only compiled with `-tags verif`.
+func (orderedMap *Map[K, V]) VerifOrder() []K {
+	return append([]K(nil), orderedMap.order...)
+}
